@@ -391,3 +391,39 @@ def _single_app(r):
         if len(mm) == 1 and mm[0][1] == 1 and c == r.d.const_value() and isinstance(mm[0][0], App):
             return mm[0][0]
     return None
+
+
+def arg_cond(t):
+    """guard form of a condition stored as an App argument (cond_arg form)"""
+    from .kai import cmp_cond
+    if t[0] == 'cmp' and len(t) == 3:
+        return cmp_cond(t[1], t[2], Rat.const(0))
+    if t[0] in ('and', 'or'):
+        return (t[0],) + tuple(arg_cond(x) for x in t[1:])
+    if t[0] == 'not':
+        from .kai import neg_cond
+        return neg_cond(arg_cond(t[1]))
+    return t
+
+
+def value_cases(value, guards=()):
+    """the leaves of a conditional value with the conditions they are reached under: [(conds, leaf)], conds in guard
+    form starting with `guards`.  `if c: out = v` / `out = v if c else w` / a helper returning on either branch all
+    read as cases of one cell function."""
+    from .kai import neg_cond, flatten_and
+    out = []
+
+    def go(v, conds):
+        a = _single_app(v) if isinstance(v, Rat) else None
+        if a is not None and a.name == 'ite':
+            c = arg_cond(a.args[0])
+            go(a.args[1], conds + [c])
+            go(a.args[2], conds + [neg_cond(c)])
+        else:
+            out.append((flatten_and(conds), v))
+    go(value, list(flatten_and(list(guards))))
+    return out
+
+
+def is_nan_value(v):
+    return isinstance(v, Rat) and v == Rat.atom(App('nan', []))
